@@ -36,6 +36,10 @@ def ev(term):
     raise ValueError(k)
 
 
+def depth_of(term):
+    return 0 if term[0] == "lib" else 1 + depth_of(term[1])
+
+
 def children(term, rng):
     """all admissible one-step extensions of a term"""
     names = sorted(ev(term))
@@ -116,7 +120,7 @@ def run(tier, seed):
     ctx = core.Ctx(PID, tier, seed, LEVEL)
     rng = ctx.rng
     depth = 3
-    d3_sample = 20000 if tier == "quick" else 250000
+    d3_sample = 20000 if tier == "quick" else core.share(250000)
     replicas = 2 if tier == "quick" else 4
     level = [("lib",)]
     terms = [("lib",)]
@@ -129,6 +133,9 @@ def run(tier, seed):
             rng.shuffle(nxt); nxt = nxt[:d3_sample]
         terms += nxt
         level = nxt if d < 1 else rng.sample(nxt, min(len(nxt), 2500))
+    if core.PART_I > 0:
+        # the exhaustive depth <= 2 terms belong to part 0; the other parts explore their own samples of depth 3
+        terms = [t for t in terms if depth_of(t) >= 3]
     ctx.exhaustive = False
     ctx.observed["exhaustive_to_depth"] = 2
     ctx.observed["terms"] = len(terms)
@@ -175,7 +182,7 @@ def run(tier, seed):
             ctx.count("api_imports")
     ctx.legs.append(leg + ":eval_import")
     # (import ...) text on fresh interpreters, single sets and declarations of two sets with disjoint result names
-    sample = rng.sample(range(len(terms)), min(len(terms), 1500 if tier == "quick" else 20000))
+    sample = rng.sample(range(len(terms)), min(len(terms), 1500 if tier == "quick" else core.share(20000)))
     jobs, meta = [], []
     for i in sample:
         t1 = terms[i]
